@@ -113,6 +113,22 @@ CLAIMED["C10"] = (
     "DESIGN.md §4 C10",
 )
 
+CLAIMED["C11"] = (
+    "Theorems for any number of files/diagnostics: the report is always in the documented sort order (sorted_ssort over the proved "
+    "total+transitive key order); sorted permutations are unique, hence permuting the file arguments (perm_files_same), collecting "
+    "the same diagnostics in any order, or checking groups separately and merging (regroup_same) gives the identical report when "
+    "(file, line, column, code) identifies a diagnostic; keys tie iff those five fields coincide (so never across files). History: "
+    "a model of the process-global line cache — independent when a run starts from fresh lines (what today's code does, observed by "
+    "execution and kernel-checked), refuted otherwise (the defect that was repaired). Tied to the code by CLI runs: permutations, "
+    "partitions, warm cache, concurrent runs, and several runs inside one process compared with fresh processes.",
+    COMMON_NOTE
+    + "PARTIAL: mypy's cache (cold/warm) and concurrent processes are exercised, not modelled; reuse of CPython object ids remembered in "
+    "five checks' module-level sets across runs in one process is searched (repeated in-process runs), not proved; same-key diagnostics "
+    "with different messages (one file, same position and code) keep traversal order by stability — not covered by the KeyInjective guard.",
+    "Lean 4 proof (sorted-permutation uniqueness, linear key order) + history probe by execution + CLI/in-process history oracle",
+    "DESIGN.md §4 C11",
+)
+
 NOT_YET = "check not built yet in this round (work in progress; see DESIGN.md §8 order of work)"
 
 
